@@ -268,8 +268,16 @@ impl Manifest {
                 // A MANIFEST without a single complete edit (a crash right after it was created)
                 // has nothing to roll up:  rolling it over would start the new file with an empty
                 // edit, ahead of whatever the caller records first.
-                if manifest.is_file() && Self::read_first_edit(&manifest)?.is_some() {
-                    this.rollover()?;
+                if manifest.is_file() {
+                    if Self::read_first_edit(&manifest)?.is_some() {
+                        this.rollover()?;
+                    } else if metadata(&manifest)?.len() > 0 {
+                        // All there is is the torn beginning of a first edit that was never
+                        // acknowledged.  Discard it, or the next edit would be appended to it.
+                        let file = OpenOptions::new().write(true).open(&manifest)?;
+                        file.set_len(0)?;
+                        file.sync_data()?;
+                    }
                 }
                 Ok(this)
             }
